@@ -150,12 +150,79 @@ def _pure_read(e) -> bool:
                                   ast.Await, ast.Yield, ast.YieldFrom)) for x in ast.walk(e))
 
 
+def _is_bool_const(e, v=None) -> bool:
+    return isinstance(e, ast.Constant) and isinstance(e.value, bool) and (v is None or e.value is v)
+
+
+def _negate(e):
+    if isinstance(e, ast.UnaryOp) and isinstance(e.op, ast.Not):
+        return e.operand
+    return ast.UnaryOp(op=ast.Not(), operand=e)
+
+
+def _as_decision_expr(body):
+    """A predicate written as a chain of guard clauses - nothing but `if <test>: return <value>` / `return <value>`, at least
+    one value the constant True or False - as the one boolean expression it decides (tests in the order they are evaluated,
+    short-circuit kept): `if a: return False; if b: return True; return c` is `not a and (b or c)`.  None for anything else."""
+    seen_const = []
+
+    def decide(stmts):
+        if not stmts:
+            return None
+        s = stmts[0]
+        if isinstance(s, ast.Return):
+            if s.value is None or len(stmts) != 1:
+                return None
+            if _is_bool_const(s.value):
+                seen_const.append(s.value.value)
+            return clone(s.value)
+        if not isinstance(s, ast.If):
+            return None
+        b = decide(list(s.body))
+        if b is None:
+            return None
+        if s.orelse and len(stmts) > 1:
+            return None
+        rest = decide(list(s.orelse) if s.orelse else list(stmts[1:]))
+        if rest is None:
+            return None
+        t = clone(s.test)
+        if _is_bool_const(b, True) and _is_bool_const(rest, False):
+            return t
+        if _is_bool_const(b, False) and _is_bool_const(rest, True):
+            return _negate(t)
+        if _is_bool_const(b, True):
+            vals = [t] + (list(rest.values) if isinstance(rest, ast.BoolOp) and isinstance(rest.op, ast.Or) else [rest])
+            return ast.BoolOp(op=ast.Or(), values=vals) if not _is_bool_const(rest, True) else ast.Constant(value=True)
+        if _is_bool_const(b, False):
+            if _is_bool_const(rest, False):
+                return ast.Constant(value=False)
+            vals = [_negate(t)] + (list(rest.values) if isinstance(rest, ast.BoolOp) and isinstance(rest.op, ast.And) else [rest])
+            return ast.BoolOp(op=ast.And(), values=vals)
+        if _is_bool_const(rest, False):
+            return ast.BoolOp(op=ast.And(), values=[t, b])
+        if _is_bool_const(rest, True):
+            return ast.BoolOp(op=ast.Or(), values=[_negate(t), b])
+        return ast.IfExp(test=t, body=b, orelse=rest)
+
+    if len(body) < 2 or not all(isinstance(st, (ast.If, ast.Return)) for st in body):
+        return None
+    e = decide(list(body))
+    if e is None or not seen_const:
+        return None
+    return ast.fix_missing_locations(e)
+
+
 def _as_single_expr(body):
     """`return <expr>` - possibly after locals bound once to pure reads (`token = self.current_token`), which are written out
     in the returned expression.  None if the body is anything else."""
     body = _strip_doc(body)
     if not body or not isinstance(body[-1], ast.Return) or body[-1].value is None:
-        return None
+        return _as_decision_expr(body) if body else None
+    if len(body) > 1 and any(isinstance(st, ast.If) for st in body):
+        d = _as_decision_expr(body)
+        if d is not None:
+            return d
     env: dict[str, ast.expr] = {}
     for st in body[:-1]:
         if not (isinstance(st, ast.Assign) and len(st.targets) == 1 and isinstance(st.targets[0], ast.Name) and st.targets[0].id not in env
